@@ -10,6 +10,7 @@ import (
 	"fmt"
 	"os"
 	"path/filepath"
+	"sync"
 	"time"
 
 	"github.com/q191201771/lal/pkg/base"
@@ -265,7 +266,7 @@ func checkSeq(r *vk.Run, seq []tagCase, dir string, idx int) {
 		rp := replay{Kind: "seq", Seq: seq, Path: path}
 		w := netsim.NewWorld()
 		c := w.NewConn("sub")
-		s := httpflv.NewSubSession(c, base.UrlContext{Url: "http://h/live/a.flv", LastItemOfPath: "a.flv", PathWithoutLastItem: "live"}, ws, "dGhlIHNhbXBsZSBub25jZQ==")
+		s := newSub(0, c, ws)
 		s.WriteHttpResponseHeader()
 		s.WriteFlvHeader()
 		for _, t := range tags {
@@ -310,7 +311,43 @@ func checkSeq(r *vk.Run, seq []tagCase, dir string, idx int) {
 			checkFlvBytes(r, "httpflv", body, want, rp)
 		}
 		r.Class("seq/" + path + "/" + shape)
+		// the same writes with lal's write queue enabled while the peer is not reading (units sit in
+		// the queue, then drain): the byte stream must be identical to the synchronous one
+		if len(tags) >= 2 {
+			r.Eval(1)
+			w2 := netsim.NewWorld()
+			c2 := w2.NewConn("subq")
+			c2.Stall(true)
+			s2 := newSub(64, c2, ws)
+			s2.WriteHttpResponseHeader()
+			s2.WriteFlvHeader()
+			for _, t := range tags {
+				s2.WriteTag(t)
+			}
+			c2.Stall(false)
+			var got []byte
+			for i := 0; i < 2000 && len(got) < len(out); i++ {
+				got = append(got, c2.Take()...)
+				if len(got) < len(out) {
+					time.Sleep(100 * time.Microsecond)
+				}
+			}
+			s2.Dispose()
+			if !bytes.Equal(got, out) {
+				r.Violation(path+"/queued-writes-differ", fmt.Sprintf("%s: with the write queue enabled and a peer that reads late, the connection carries %d bytes that differ from the %d bytes of the synchronous run (sequence %+v)", path, len(got), len(out), seq), rp)
+			}
+		}
 	}
+}
+
+var sessMu sync.Mutex
+
+// newSub creates a sub session with the given write-queue size (a process-wide variable in lal).
+func newSub(queue int, c *netsim.Conn, ws bool) *httpflv.SubSession {
+	sessMu.Lock()
+	defer sessMu.Unlock()
+	httpflv.SubSessionWriteChanSize = queue
+	return httpflv.NewSubSession(c, base.UrlContext{Url: "http://h/live/a.flv", LastItemOfPath: "a.flv", PathWithoutLastItem: "live"}, ws, "dGhlIHNhbXBsZSBub25jZQ==")
 }
 
 func main() {
